@@ -725,7 +725,91 @@ def gen_c06_inner(rng, mode):
     return g.finish()
 
 
+def gen_gcwindow(rng, mode):
+    """The windows around a rate-limited collection run: delete while an iterator is open, close the last
+    iterator (or catch it up), then -- before / after the collector gets to run -- re-insert, open a new
+    iterator, delete again; short and long virtual sleeps at every point."""
+    g = DBGen(rng, mode)
+    g.add(op="config", nilempty=False)
+    t = g.newtable()
+    pk = [0, 1, 2]
+
+    def o(i):
+        return dict(pk=PKS[pk[i]], val=rng.randint(1, 9), hasU=False, u=[], tags=[], pfx=[], hasUp=False, upfx=[])
+
+    def nap():
+        r = rng.random()
+        if r < 0.5:
+            return
+        g.sleep(rng.choice([1, 300, 900, 1100, 2500]))
+
+    tx = g.begin([t])
+    for i in range(3):
+        g.add(op="insert", tx=tx, t=t, obj=o(i), guard=0, gsym="", w=0)
+    a = g.changes(tx, t)
+    b = g.changes(tx, t) if rng.random() < 0.3 else None
+    g.commit(tx)
+    g.next(a, take=-1)
+    # a first collection run, so that the next one is rate limited
+    tx = g.begin([t])
+    g.add(op="delete", tx=tx, t=t, obj=o(0), guard=0, gsym="", w=0)
+    g.commit(tx)
+    g.next(a, take=-1)
+    if b is not None:
+        g.next(b, take=-1)
+    nap()
+    for _ in range(rng.randint(1, 3)):
+        i = rng.randrange(3)
+        tx = g.begin([t])
+        g.add(op="delete", tx=tx, t=t, obj=o(i), guard=0, gsym="", w=0)
+        g.commit(tx)
+        nap()
+        # the iterators are closed or caught up: the deletion becomes collectable
+        for it in (a, b):
+            if it is not None and g.iters[it]["st"] == "open":
+                if rng.random() < 0.6:
+                    g.iterclose(it)
+                else:
+                    g.next(it, take=-1)
+        nap()
+        tx = g.begin([t])
+        g.add(op="insert", tx=tx, t=t, obj=o(i), guard=0, gsym="", w=0)      # re-insert
+        created = g.changes(tx, t) if rng.random() < 0.5 and len(g.iters) < 5 else None
+        g.commit(tx)
+        nap()
+        if created is None and len(g.iters) < 5:
+            tx = g.begin([t])
+            created = g.changes(tx, t)
+            g.commit(tx)
+        tx = g.begin([t])
+        g.add(op="delete", tx=tx, t=t, obj=o(i), guard=0, gsym="", w=0)      # delete again
+        g.commit(tx)
+        if created is not None:
+            g.next(created, take=-1)
+        g.grave(t, quiet=False)
+        a, b = created, None
+        tx = g.begin([t])
+        g.add(op="insert", tx=tx, t=t, obj=o(i), guard=0, gsym="", w=0)
+        g.commit(tx)
+    for i, d in g.iters.items():
+        if d["st"] == "open":
+            if rng.random() < 0.5:
+                g.next(i, take=-1)
+                g.next(i, take=-1)
+            else:
+                g.iterclose(i)
+    g.sleep(2500)
+    g.grave(t, quiet=True)
+    for i, d in g.iters.items():
+        if d["st"] == "open":
+            g.iterclose(i)
+    g.sleep(2500)
+    g.grave(t, quiet=True)
+    return g.finish()
+
+
 MODES = {
+    "gcwindow": gen_gcwindow,
     "c06inner": gen_c06_inner,
     "lpmshared": gen_lpm_shared,
     "c18": gen_c18,
